@@ -25,7 +25,8 @@ ASSUMES = [
     'routine bodies are finite scripts over the actions of coq/model/Routine.v:act (yield, return, raise, YieldAndReset, '
     'AlwaysYield, calls of next/stop/pause/resume/reset/play/signal/unhang/test=/value= on any routine or cell including '
     'itself, caught or not, wait, flow-variable read); one clock (SystemClock, NRT); boolean Condition tests',
-    'threads: the main RLock is not modelled (single thread of control, as in NRT mode)',
+    'threads: the model has one thread of control; that operations issued from other OS threads are serialised with the wake-ups of the '
+    'clock threads (library lock) is checked on real threads (c11_rt.py concurrent scenarios) and by an ast check of the lock discipline',
 ]
 FUEL = 40
 SIG_REENTRY = 'C11:reentrant_next_current_tt'
@@ -471,10 +472,45 @@ def awake_clause(repo):
     return out
 
 
+LOCKED_METHODS = [('sc3/base/stream.py', 'Routine', ['play', 'next', 'reset', 'pause', 'resume', 'stop']),
+                  ('sc3/base/stream.py', 'Condition', ['signal', 'unhang']),
+                  ('sc3/seq/eventstream.py', 'EventStreamPlayer', ['reset', 'resume', 'stop', 'play'])]
+
+
+def lock_discipline(repo):
+    """The model treats every operation applied from outside as atomic with respect to routine bodies (between two
+    operations no routine is Running: thread_stack_restored).  In the library this is what `with self._state_lock:` gives:
+    every read/write of self.state / self._waiting_threads in the state-machine methods must be lexically inside it.
+    -> list of 'Class.method: self.<attr> accessed outside the lock (line n)'"""
+    import ast
+    bad = []
+    for path, cls, methods in LOCKED_METHODS:
+        tree = ast.parse(open(os.path.join(repo, path)).read())
+        for cnode in ast.walk(tree):
+            if not (isinstance(cnode, ast.ClassDef) and cnode.name == cls):
+                continue
+            for f in cnode.body:
+                if not (isinstance(f, ast.FunctionDef) and f.name in methods):
+                    continue
+
+                def visit(node, locked):
+                    if isinstance(node, ast.With) and any(
+                            isinstance(i.context_expr, ast.Attribute) and i.context_expr.attr == '_state_lock' for i in node.items):
+                        locked = True
+                    if isinstance(node, ast.Attribute) and node.attr in ('state', '_waiting_threads', '_iterator') \
+                            and isinstance(node.value, ast.Name) and node.value.id == 'self' and not locked:
+                        bad.append('%s.%s: self.%s accessed outside `with self._state_lock` (line %d)' % (cls, f.name, node.attr, node.lineno))
+                    for ch in ast.iter_child_nodes(node):
+                        visit(ch, locked)
+                visit(f, False)
+    return bad
+
+
 def run_rt(ctx, c=None):
     """routines ending in every way on the real clock threads (own process, own port); -> Failures"""
     port = 58500 + (os.getpid() % 30) * 12
-    res = ctx.impl('c11_rt', {'endings': RT_ENDINGS, 'sleep_check': ['exhaust', 'raise']}, mode='rt', timeout=120,
+    res = ctx.impl('c11_rt', {'endings': RT_ENDINGS, 'sleep_check': ['exhaust', 'raise'],
+                              'concurrent': ['pause', 'stop', 'reset', 'resume', 'play', 'next']}, mode='rt', timeout=180,
                    extra_env={'SC3_LIB_PORT': str(port)})['scenarios']
     fails = []
     seen = set()
@@ -514,6 +550,14 @@ def correspond(ctx):
                 c.failures.append(Failure('correspondence', 'model/RtWake.v assumes that %s clears main._in_awake_call in a finally '
                                           'clause; the source has it in: %s' % (loop, where), replay={'loop': loop, 'clause': where},
                                           theorem='awake_flag_cleared_on_every_exit'))
+    for t in lock_discipline(fw.REPO):
+        c.count('lock-discipline-violations')
+        mine = [f for f in rt_fails if 'from another thread' in f.what]
+        for f in mine:
+            f.what += ' [source: %s]' % t
+        if not mine:
+            c.failures.append(Failure('correspondence', 'the model assumes operations from outside are atomic w.r.t. routine bodies '
+                                      '(library lock); source: ' + t, replay={'lock_discipline': t}, theorem='thread_stack_restored'))
     c.failures.extend(rt_fails)
     ctx.c11_rt_done = True
     cases = gen_cases(ctx, ctx.n(500, 8000))
